@@ -1604,3 +1604,32 @@ Proof.
   rewrite held_lockfree by (eapply lockfree_tail, Lf).
   rewrite heldc_app, heldc_cons, (heldc_plain _ mid Pm). cbn [held_i]. rewrite Hs, Nat.eqb_refl. cbn. lia.
 Qed.
+
+(* ================================================================== *)
+(* C03: which instructions can block *)
+Theorem only_these_block P cfg s a i rest :
+  step_instr P cfg s a i rest = None ->
+  (exists h, i = ILock h) \/ (exists p, i = IPersistLock p) \/ i = IDo AWait \/ (exists sid, i = IWaiterDone sid) \/
+  (exists sid c, i = IShutdownSelect sid c) \/ i = ICrashed.
+Proof.
+  intros H. destruct i; cbn [step_instr] in H;
+    try solve [discriminate H];
+    try solve [left; eauto];
+    try solve [right; left; eauto];
+    try solve [right; right; right; left; eauto];
+    try solve [right; right; right; right; left; eauto];
+    try solve [right; right; right; right; right; reflexivity];
+    try solve [break_head H; discriminate H].
+  (* IDo *)
+  destruct a0; cbn [step_instr] in H; try solve [break_head H; discriminate H]; try discriminate H.
+  right. right. left. reflexivity.
+Qed.
+
+Lemma self_delivery_blocks :
+  let P := {| p_bodies := [(0, {| b_acts := [] |}); (1, {| b_acts := [APub 0 2 CtxBg false] |})]; p_filters := [];
+              p_routes := fun _ => 0; p_nshards := 32; p_pfault := fun _ => PfOk |} in
+  let sp := {| h_fn := 0; h_once := false; h_async := false; h_seq := true; h_ctx := false; h_filter := None; h_body := 1 |} in
+  let s := fst (run P cfg0 (init_state [[ASub 0 sp; APub 0 1 CtxBg false]]) (repeat 0 40)) in
+  mstep P cfg0 s 0 = None /\
+  (exists h rest, assoc_get (code s) 0 = Some (ILock h :: rest) /\ assoc_get (seqlocks s) (r_id h) = Some 0).
+Proof. vm_compute. split; [reflexivity|]. eexists. eexists. split; reflexivity. Qed.
